@@ -399,8 +399,12 @@ class Ctx:
             "wall_s": round(time.time() - self.t0, 2),
             "violations": violations,
         }
-        os.makedirs(os.path.join(VERIF, "evidence"), exist_ok=True)
-        with open(os.path.join(VERIF, "evidence", f"{self.prop}.json"), "w") as f:
+        # Evidence of the registered commands comes from /repo itself; a run against a scratch tree
+        # (VERIF_REPO, used for seeded changes) writes its evidence under work/ instead.
+        evdir = os.path.join(VERIF, "evidence") if os.path.realpath(REPO) == "/repo" else \
+            os.path.join(WORK, "evidence-" + hashlib.sha1(REPO.encode()).hexdigest()[:8])
+        os.makedirs(evdir, exist_ok=True)
+        with open(os.path.join(evdir, f"{self.prop}.json"), "w") as f:
             json.dump(ev, f, indent=1, sort_keys=True)
             f.write("\n")
         self.log(f"done in {ev['wall_s']}s: obligations {self.obl_ok}/{self.obl_total}, "
